@@ -20,7 +20,7 @@ def W(centre, half=70, batch=10):
 ORIGIN = Family(
     "origin", "MC_TextIO", "Trace_TextIO", "textio", devs=False,
     rounds={"quick": [M("origin", 2000, 600, 100, 1), W(10020), W(100020)],
-            "thorough": [M("origin", 20000, 5000, 250, 1), W(100020, 200), W(1000020, 130), W(10000020, 65, 5)]},
+            "thorough": [M("origin", 50000, 5000, 250, 1), W(100020, 200), W(1000020, 130), W(10000020, 65, 5)]},
     owns=lambda v: v["rule"].startswith("origin"),
     rule_text=("every length 0..MaxN, and windows of lengths around the changes of the index width (10^4, 10^5; thorough "
                "also 10^6, 10^7), x {acgt, full printable alphabet}: NewOrigin(p).String parsed into index / group "
